@@ -55,7 +55,7 @@ def locals_in(e):
 
 def cleared_from_length(ctx, f, arr_name, len_name, fill_value_pred, what, key_prefix=None, end_kinds=("open", "prev")):
     """state 2 for an (array, length) out-parameter pair of function f"""
-    ctx.visit(f)
+    ctx.visit(f, weak=True)
     sy = Sym(f)
     ai, li = param_index_by_name(f, arr_name), param_index_by_name(f, len_name)
     key = "%s: %s cleared from the stored length" % (key_prefix or f.short, what)
@@ -148,7 +148,7 @@ def compress_expand(ctx, prog):
     f = prog.fn("hash_dual::algorithms::compress_block_hash_with_rle")
     cleared_from_length(ctx, f, "blockhash_out", "blockhash_len_out", zero, "normalized block hash tail", end_kinds=("open",))
     # the RLE block is terminator-filled from the final encoder offset
-    ctx.visit(f)
+    ctx.visit(f, weak=True)
     sy = Sym(f)
     ri = param_index_by_name(f, "rle_block_out")
     fills = fills_of_param(f, sy, ri) if ri else []
@@ -211,7 +211,7 @@ def rle_write_census(ctx, prog):
             ctx.ob(R, "%s: write to %s is TERMINATOR-fill, a like-field copy, or goes through the encoder" % (f.short, w.field), ok, why, f.loc(w.sp))
     # inside the compressor / encoder: element stores into the rle parameter are encode(...) results or the fill(TERMINATOR)
     f = prog.fn("hash_dual::algorithms::update_rle_block")
-    ctx.visit(f)
+    ctx.visit(f, weak=True)
     sy = Sym(f)
     for i, j, s in f.stmts():
         if s["s"] == "assign" and s["lhs"]["l"] == 1 and len(s["lhs"]["p"]) > 1:
@@ -250,7 +250,7 @@ def classify_writers(ctx, prog, scope=None, floor=14):
         if not ws:
             continue
         n += 1
-        ctx.visit(f)
+        ctx.visit(f, weak=True)
         key = "%s: every write to block-hash storage is under a tail rule" % f.short
         if f.path.endswith(STATED_OUT_OF_SCOPE):
             ctx.ob(R, key, True, "stated exception: path-sensitive sz/sz+1 bookkeeping of the generator's digest assembly is not analysed (DESIGN 3.6)", f.loc())
